@@ -245,6 +245,10 @@ def shrink(work, misses, specs, timeout=240, max_rounds=7, module="p1"):
                 if cur["wrap"] != "direct" or cur["src"] != "direct":
                     cs.append(strip_scen(cur, atoms=[{"kind": "copy", "variant": "plain"}]))
                     cs.append(strip_scen(cur, src="direct", wrap="direct"))
+            elif len(cur["atoms"]) == 1 and (cur["atoms"][0]["kind"], cur["atoms"][0]["variant"]) != ("copy", "plain") and \
+                    (cur["wrap"] != "direct" or cur["src"] != "direct"):
+                # the last atom may be irrelevant next to a failing source shape / sink wrap: try the neutral atom
+                cs.append(strip_scen(cur, atoms=[{"kind": "copy", "variant": "plain"}]))
             # ... and, in every round, the current chain with one component removed
             if cur["src"] != "direct":
                 cs.append(strip_scen(cur, src="direct"))
